@@ -158,7 +158,7 @@ def _definition(reg, Class, symbol, equation="R"):
                                                                      lower_limit=0.0, upper_limit=inf, fixed=False)])
 
 
-OPS = ("register_valid", "register_second", "register_inconsistent", "register_duplicate_symbol", "register_invalid_symbol",
+OPS = ("register_valid", "register_second", "register_inconsistent", "register_duplicate_symbol", "register_private_builtin_symbol", "register_invalid_symbol",
        "remove", "reset_all", "reset_elements_only", "reset_defaults_only", "set_default", "reset_default_values", "set_default_unknown_key")
 
 
@@ -227,10 +227,11 @@ def make_history_harness(length: int):
             for step in range(length):
                 op = OPS[eng.choice(len(OPS), "step%d.op" % step)]
                 before = (dict(reg._ELEMENTS), dict(reg._PRIVATE_ELEMENTS))
-                if op in ("register_valid", "register_second", "register_inconsistent", "register_duplicate_symbol", "register_invalid_symbol"):
+                if op in ("register_valid", "register_second", "register_inconsistent", "register_duplicate_symbol", "register_private_builtin_symbol", "register_invalid_symbol"):
                     private = eng.choice(2, "step%d.private" % step) == 1
                     cls, symbol, eq = {"register_valid": (UserA, "U", "R"), "register_second": (UserB, "V", "R"),
                                        "register_inconsistent": (UserBad, "V", "R"), "register_duplicate_symbol": (UserB, "R", "R"),
+                                       "register_private_builtin_symbol": (UserB, "K", "R"),        # K: a built-in hidden from the public view
                                        "register_invalid_symbol": (UserB, "u1", "R")}[op]
                     ok, res = call(reg.register_element, _definition(reg, cls, symbol, eq), private=private)
                     valid = op in ("register_valid", "register_second") and not (symbol in model["user"] and model["user"][symbol][0] is not cls)
@@ -310,7 +311,7 @@ def obligations(tier: str):
                reg.remove_elements, reg.reset, reg.reset_default_parameter_values, base.Element.set_default_values.__func__]
     L = 2 if tier == "quick" else 3
     obs.append(Obligation("history.%d" % L, make_history_harness(L),
-                          bounds="every history of %d operations out of %d kinds (register valid/second/inconsistent/duplicate-symbol/invalid-symbol with "
+                          bounds="every history of %d operations out of %d kinds (register valid/second/inconsistent/duplicate-symbol/symbol of a private built-in/invalid-symbol with "
                                  "private flag, remove, reset x3, set_default_values(symbolic) on Resistor or on the private built-in KramersKronigRC, reset_default_parameter_values), followed by reset() and a "
                                  "registration" % (L, len(OPS)), functions=funcs_b, expect_reach=["history"], max_paths=1000000))
     for o in obs:
